@@ -4,6 +4,7 @@ package c06
 
 import (
 	"fmt"
+	"math/big"
 
 	sdkmath "cosmossdk.io/math"
 	abci "github.com/cometbft/cometbft/abci/types"
@@ -35,7 +36,6 @@ func keyJSON(j int) string {
 	return `{"@type":"/cosmos.crypto.ed25519.PubKey","key":"` + keyB64[j] + `"}`
 }
 
-
 // VerifC06EndBlock: the dogfood EndBlock of the block that closes an epoch, from an arbitrary
 // previous validator set (any subset of the three operators' keys plus a key nobody holds any
 // more, with arbitrary powers) and arbitrary new powers, eligibility (opted in / not / jailed) and
@@ -44,6 +44,7 @@ func keyJSON(j int) string {
 func VerifC06EndBlock() {
 	nOps := verifrt.Param("operators", 3)
 	f := verifenv.NewFull(100)
+	usdCap := sdkmath.NewIntFromBigInt(new(big.Int).Lsh(big.NewInt(1), uint(verifrt.Param("usd_bits", 20))))
 	chain := avstypes.ChainIDWithoutRevision(f.Ctx.ChainID())
 	st := prefix.NewStore(f.Ctx.KVStore(verifrt.StoreKey(epochstypes.StoreKey)), epochstypes.KeyPrefixEpoch)
 	ep := epochstypes.EpochInfo{Identifier: verifenv.EpochDay, Duration: 3600000000000, CurrentEpoch: 5, EpochCountingStarted: true}
@@ -78,7 +79,7 @@ func VerifC06EndBlock() {
 		verifrt.Assume(err == nil)
 		// active USD value with a fractional part: the vote power is its whole-number part
 		v := verifrt.Dec(nm("operator%d_usd_value", o))
-		verifrt.Assume(verifrt.All(!v.IsNegative(), v.LTE(sdkmath.LegacyNewDec(1<<20))))
+		verifrt.Assume(verifrt.All(!v.IsNegative(), v.LTE(sdkmath.LegacyNewDecFromInt(usdCap))))
 		f.PutUSDValue(avs, o, operatortypes.OperatorOptedUSDValue{SelfUSDValue: v, TotalUSDValue: v, ActiveUSDValue: v})
 		power[o] = v.TruncateInt64()
 		if status[o] == 2 {
